@@ -1,7 +1,7 @@
 """C16: secret-bearing temporaries are wiped through dep:memzero on every exit; seed blocks wiped before release."""
 from .frontend import AnalysisBroken
 from .taint import Taint
-from .ir import base_name, strip_casts, DATA_STRUCT
+from .ir import const_of, base_name, strip_casts, DATA_STRUCT
 from .paths import feasible_walks
 
 
@@ -141,6 +141,10 @@ def wipes(ctx, rep, cfgs=None):
                 n += 1
                 v, off = strip_casts(f, i.ops[0])
                 size = i.ops[1]['v'] if i.ops[1]['k'] == 'c' else None
+                if size is None:
+                    # a length parameter: the constant every call site passes
+                    cs = set(const_of(v_) for _, v_, _ in P.leaves(f, i.ops[1]))
+                    if len(cs) == 1 and None not in cs: size = cs.pop()
                 ok = False
                 if off is not None and size is not None and off >= 0:
                     objs = pts.of(f, i.ops[0])
